@@ -367,3 +367,23 @@ CHECKS["C20"] = dict(
           "c20rpc: 24 generated tables/datasets with 5 queries each through the real RPC stack; "
           "c20same: 32 datasets x 8 generated SQL queries (field subsets, WHERE, GROUP BY incl. dimensions some points lack, HAVING, ORDER BY with 1-4 asc/desc keys, LIMIT/OFFSET) answered over RPC and "
           "in-process: same field names, same rows (timestamps, keys, values) in the same order (relation ROrdered of Model/Filter.v). non-trivial: expression size >= 2 / >= 3 points"))
+
+
+# ---------------------------------------------------------------------------
+# stage `tree`: the real bytetree.Tree against the structural radix-tree model (Model/Tree.v, Proofs/TreeP.v)
+# ---------------------------------------------------------------------------
+def _tree_stage(salt):
+    return dict(sub="tree", quick=240, thorough=12000, shrink=["ops"], seed_salt=salt)
+
+
+_TREE_RULE = (" Stage tree (Model/Tree.v): 4-45 operations on the real bytetree.Tree — Update (keys over a two- or three-letter alphabet, 0-8 bytes, "
+              "often prefixes or extensions of earlier keys, the empty key; in a quarter of the cases byte maps of a few dims), Remove and Walk under "
+              "contexts 0-2 with callbacks that drop some keys and stop early, Copy (up to 3 read-only snapshots that are then walked and removed from "
+              "while the original goes on), Length — closed by a full Walk of every tree in a fresh context. Walk's output is compared in order "
+              "(breadth first), Remove's return value and Length exactly, with the model run on the same operations. non-trivial: >= 3 updates.")
+for _p, _salt in (("C01", 4101), ("C03", 4103), ("C18", 4118)):
+    CHECKS[_p]["stages"] = CHECKS[_p]["stages"] + [_tree_stage(_salt)]
+    CHECKS[_p]["rule"] += _TREE_RULE
+    CHECKS[_p]["trusted"] = CHECKS[_p].get("trusted", []) + [
+        "Model/Tree.v transcribes bytetree.go by hand (tied by stage tree); a node's data is the one SUM field the harness gives the tree; "
+        "Tree.bytes (the memory estimate) and the mutex around removedFor are not modelled"]
